@@ -184,6 +184,10 @@ def random_hlsl_cfgs(rng, truth):
             bm.append([k[0], k[1], t[0], t[1]])
         extra = [[7, rng.range(0, 9), 1, 1]] if rng.chance(1, 3) else []       # an entry for a binding that does not exist
         cfgs.append({"tag": tag, "fake": fake, "binding_map": bm + extra})
+    # a third configuration names a fragment entry point of the module as Options.FragmentEntryPoint
+    frags = [e["name"] for e in truth["eps"] if e["stage"] == "fragment"]
+    if frags and any(e["stage"] == "vertex" for e in truth["eps"]):
+        cfgs.append({"tag": "hfe", "fake": True, "binding_map": [], "fragment_ep": rng.choice(frags)})
     return cfgs
 
 
@@ -339,6 +343,14 @@ def check_hlsl(ctx, st, src, truth, cfg, out, model, viol):
             viol("hlsl:reflection-entry-point-untrue", "TranslationInfo.EntryPointNames[%s] = %s is not a function of the text" % (ep["name"], n), cfg)
             continue
         wi, wo = hlsl_expected_semantics(ep)
+        fe = cfg.get("fragment_ep")
+        if fe and ep["stage"] == "vertex":
+            # Options.FragmentEntryPoint: outputs of a vertex entry point (returned as a struct) at locations the named fragment
+            # entry point does not take as input are stripped - and every location it DOES take must stay (linkage)
+            fl = {it["loc"] for e2 in truth["eps"] if e2["name"] == fe for it in e2["inputs"] if "loc" in it}
+            if fl:
+                wo = sorted(x for x in wo if not x.startswith("LOC") or int(x[3:]) in fl)
+                st.add("hlsl_vertex_outputs_filtered_by_fragment_inputs")
         gi = sorted(s for s, _, pn in io[0] if pn not in ("__local_invocation_id", "__local_invocation_index"))
         go = sorted(s for s, _, _ in io[1])
         st.add("hlsl_entry_points_compared")
